@@ -263,6 +263,7 @@ func runCase(r *evid.Run, rep reporter, sz sizes, idx int, verbose bool) {
 		return // the full tree could not even be read back; soundness needs it
 	}
 	c.soundness(verbose)
+	c.localWrites(r.Rand(uint64(idx), 7))
 
 	rep.Sample(map[string]any{
 		"case": idx, "keys": len(c.M.keys), "root": hex.EncodeToString(c.root.Hash[:]),
